@@ -104,14 +104,14 @@ def gen_case(r, maxports=4, globs=True, allow_collisions=True):
         return l
     nports = r.randint(1, maxports)
     for pi in range(nports):
-        kind = r.choice(['dict', 'dict', 'dictpath', 'leaf', 'full', 'glob', 'out', 'nested', 'globdict', 'starstar']
-                        if globs else ['dict', 'dict', 'dictpath', 'leaf', 'full', 'out', 'nested'])
+        kind = r.choice(['dict', 'dict', 'dictpath', 'leaf', 'full', 'glob', 'out', 'nested', 'globdict', 'starstar', 'deepsplit']
+                        if globs else ['dict', 'dict', 'dictpath', 'leaf', 'full', 'out', 'nested', 'deepsplit'])
         port = 'P%d' % pi
         B = r.choice(branches)
         bl = [l for l in leaf_nodes if l[:-1] == B]
         if not allow_collisions:
             bl = [l for l in bl if l not in used_nodes]
-            if not bl and kind in ('dict', 'dictpath', 'out', 'nested', 'starstar'):
+            if not bl and kind in ('dict', 'dictpath', 'out', 'nested', 'starstar', 'deepsplit'):
                 kind = 'leaf'
         if kind == 'leaf':
             tgt = pick_leaf()
@@ -159,6 +159,21 @@ def gen_case(r, maxports=4, globs=True, allow_collisions=True):
             used_nodes.update(vs)
             schema[port] = {B[-1]: {l[-1]: {'_default': leaves[l]} for l in vs}}
             topo[port] = list(rel_path(ploc, par))
+        elif kind == 'deepsplit':
+            # a nested group with its own '_path' inside a port that has a '_path' too, one variable of the
+            # group re-mapped out of it with '..'
+            vs = r.sample(bl, r.randint(1, len(bl)))
+            used_nodes.update(vs)
+            other = pick_leaf()
+            inner = {l[-1]: {'_default': leaves[l]} for l in vs}
+            it = {'_path': [B[-1]]}
+            for l in vs:
+                it[l[-1]] = [l[-1]]
+            if other is not None:
+                inner['far'] = {'_default': leaves[other]}
+                it['far'] = list(rel_path(B, other))
+            schema[port] = {'m': inner}
+            topo[port] = {'_path': list(rel_path(ploc, B[:-1])), 'm': it}
         elif kind == 'starstar':
             if ploc[:len(B)] == B:
                 continue            # the subtree would contain the probe itself
